@@ -26,7 +26,9 @@ def specs(tier):
                 J('steady4-%s:F1H2X3' % tag, 'steady', dict(n=4, fallback=fb, exact_time=exact), dict(F=1, H=2, X=3), dict(k=0)),
                 J('steady5-%s:F1H1X4' % tag, 'steady', dict(n=5, fallback=fb, exact_time=exact), dict(F=1, H=1, X=4), dict(k=0)),
             ]
-    js += [J('steady4-fb3.5p:F1X3', 'steady', dict(n=4, fallback=0.035, exact_time=True), dict(F=1, X=3), dict(k=0)),
+    js += [J('steady4-fb3.5p:F1X2', 'steady', dict(n=4, fallback=0.035, exact_time=True), dict(F=1, X=2), dict(k=0)),
+           J('obs1-steady2-fb1.5p:H3X2', 'steady', dict(n=2, observers=1, fallback=0.015, exact_time=True), dict(H=3, X=2), dict(k=0)),
+           J('split4-fb3.5p:F1E2', 'split', dict(n=4, fallback=0.035, exact_time=True), dict(F=1, E=2), dict(k=0)),
            J('obs1-steady2:F1H1X2', 'steady', dict(n=2, observers=1, fallback=0.035, exact_time=True), dict(F=1, H=1, X=2), dict(k=0))]
     for j in js:
         j['max_states'] = 300000 if q else 2000000
